@@ -15,7 +15,7 @@
    process after a failed fsync or a failed rollover behind a completed append (a complete record that is on
    disk but not in the index), and after a merge pass that failed half-way. *)
 From BC Require Import Store.Engine Store.Log Store.Cons Store.Inv Store.Refine Store.Merge Store.Theorems
-  Store.Codec Store.CodecProofs Store.Crash Store.CrashScript Store.CrashMerge Store.FaultUnlink Store.FaultContinue.
+  Store.Codec Store.CodecProofs Store.Crash Store.CrashScript Store.CrashMerge Store.FaultUnlink Store.FaultContinue Store.FaultBytes.
 From Coq Require Import Lia.
 Open Scope N_scope.
 
@@ -132,6 +132,23 @@ Theorem C20_next_write_heals : forall c x k v, faulted x ->
 Proof. exact step_set_faulted. Qed.
 Print Assumptions C20_next_write_heals.
 
+(* 8. The two halves meet.  A put or delete issued in invariant state s fails in its append and leaves the torn record
+      [p] behind the active file ([junked]: the file system is the clean one with [p] appended to that file); the
+      process goes on — the next put replaces the active file — with any ready script (merge passes and reopens
+      included).  Every answer is the map's answer with the failed operation not applied, and what is on disk at the end
+      ([fs_run] of all the system calls, on the file system WITH the junk) reads as a directory that opens to exactly
+      the map the process holds: a restart at that point loses nothing and resurrects nothing. *)
+Theorem C20_continue_then_restart : forall c s clk k0 v0 ops fc fj p,
+  Inv s -> rep fc (s_dir s) -> junked (s_active s) p fj fc -> torn_entry p ->
+  let x := after_failed_append s clk in
+  run_ready c (fst (fst (step c x (OSet k0 v0)))) ops ->
+  trace_wf (snd (run c x (OSet k0 v0 :: ops))) ->
+  let '(x', rs, t) := run c x (OSet k0 v0 :: ops) in
+  Inv x' /\ rs = spec_run (abs s) (OSet k0 v0 :: ops) /\
+  exists fj', fs_run fj t = Some fj' /\ img_ok fj' (abs x').
+Proof. exact fault_continue_restart. Qed.
+Print Assumptions C20_continue_then_restart.
+
 (* Non-vacuity of 6 and 7: after SET k 1, a SET k 2 fails in its flush.  Reads see 1; a restart that comes first
    applies the buffered record (k reads 2 afterwards); a SET of another key first discards it (k reads 1 after
    the restart). *)
@@ -170,4 +187,30 @@ Proof.
     + vm_compute. discriminate.
     + cbn [app fs_run fs_step]. reflexivity.
   - vm_compute. reflexivity.
+Qed.
+
+(* Non-vacuity of 8: after SET k 12, a SET k 3 fails leaving 9 bytes of its record behind file 0; the process goes on
+   with SET k 4, GET k, a merge-free script; the hypotheses hold and the final directory has the junk in place. *)
+Example C20_continue_example :
+  let c := mkCfg 1000 false 0 1 0 1000000000 in
+  let s := fst (fst (run c init [OSet [107] [1; 2]])) in
+  let p := firstn 9 (enc_entry (mkEntry 2 [107] (Some [3]))) in
+  let fc : fs := fun f => match f with FData 0 => Some (enc_entry (mkEntry 1 [107] (Some [1; 2]))) | _ => None end in
+  let fj : fs := fun f => match f with FData 0 => Some (enc_entry (mkEntry 1 [107] (Some [1; 2])) ++ p) | _ => None end in
+  Inv s /\ rep fc (s_dir s) /\ junked (s_active s) p fj fc /\ torn_entry p /\
+  run_ready c (fst (fst (step c (after_failed_append s 3) (OSet [107] [4])))) [OGet [107]] /\
+  exists fj', fs_run fj (snd (run c (after_failed_append s 3) [OSet [107] [4]; OGet [107]])) = Some fj' /\
+    fj' (FData 0) = Some (enc_entry (mkEntry 1 [107] (Some [1; 2])) ++ p) /\ fj' (FData 1) = Some (enc_entry (mkEntry 3 [107] (Some [4]))).
+Proof.
+  cbv zeta. split.
+  { pose proof (run_refines (mkCfg 1000 false 0 1 0 1000000000) [OSet [107] [1; 2]] init (proj1 init_inv)) as H.
+    cbn [run_ready op_ready] in H. specialize (H (conj I I)).
+    destruct (run (mkCfg 1000 false 0 1 0 1000000000) init [OSet [107] [1; 2]]) as [[s' rs] ts]. exact (proj1 H). }
+  split; [intros id; destruct id as [|q]; vm_compute; auto|].
+  split; [intros g; destruct g as [[|q]|i]; vm_compute; reflexivity|].
+  split.
+  { right. exists (mkEntry 2 [107] (Some [3])), (skipn 9 (enc_entry (mkEntry 2 [107] (Some [3])))).
+    split; [unfold wf_entry, i64_ok; cbn; repeat split; lia|]. split; [vm_compute; discriminate|]. vm_compute. reflexivity. }
+  split; [cbn; auto|].
+  eexists. split; [vm_compute; reflexivity|]. split; vm_compute; reflexivity.
 Qed.
